@@ -458,9 +458,22 @@ def fullprod_rule(chk, db):
                 node, verdict = x, False
             if x.get("k") == "call" and astx.callee(x)[0] == "any_of" and "extent" in astx.show(x, 200):
                 node, verdict = x, True
+        for x in astx.all_exprs(f, into_lambdas=True):
+            if x.get("k") == "call":
+                nm, q, recv, kind = astx.callee(x)
+                r0 = astx.strip_casts(recv) if recv is not None else None
+                if nm in ("empty", "size") and r0 is not None and r0.get("k") == "mem" and r0.get("dk") == "field" and \
+                        not re.search(r"map|ext", r0.get("n", ""), re.I):
+                    node, verdict = x, "container"
         if verdict is None:
             if any(x.get("k") == "call" and astx.callee(x)[0] in ("size", "required_span_size") for x in astx.all_exprs(f)):
                 verdict = True
+        if verdict == "container":
+            chk.obligation("EMPTYANY", label, False)
+            chk.violation("EMPTYANY", label, "emptiness-from-container", "%s: empty() answers `%s`: the container may be non-empty (an array "
+                          "always is) although an extent is zero, so empty() disagrees with size() == 0 and with the mdspan view"
+                          % (astx.loc(f, node), astx.show(node, 40)), {"where": astx.loc(f)})
+            continue
         chk.obligation("EMPTYANY", label, verdict)
         if verdict is False:
             chk.violation("EMPTYANY", label, "all-instead-of-any", "%s: `%s` calls the view empty only when *every* extent is zero; a "
